@@ -9,7 +9,12 @@
       distributions already handed out (functools.lru_cache on probability_distribution / ratio / neg_lim), operated
       by a history of "distribution at p" and "read attribute" operations.  Theorem: whatever the history, every
       answer is the pure function of (parameters, p) and every attribute read is the function of the parameters —
-      the specification against which the object-reuse histories of harness/c16.py are compared. *)
+      the specification against which the object-reuse histories of harness/c16.py are compared.
+
+   3. CALLER-OWNED CONSTRUCTOR ARGUMENTS.  A world of caller-owned buffers and objects constructed from them; the
+      caller refills its buffers at any time.  Theorems: every answer is the pure function of the snapshot taken at
+      construction (world_snapshot), a refill changes no later answer (refill_invisible), only the caller writes to
+      the buffers (buffers_only_caller). *)
 From Coq Require Import QArith Qabs Qreduction Lqa List Bool.
 From QV Require Import ErrorModels.DistQ.
 Import ListNotations.
@@ -149,3 +154,206 @@ Section Objects.
     rewrite Nat.sub_diag. reflexivity.
   Qed.
 End Objects.
+
+(* ------------------------------------------------------------------ *)
+(* 3. constructor arguments owned by the caller                        *)
+(* The caller keeps the object it passed to the constructor (a list / an ndarray) and goes on writing to it: a sweep
+   refills one buffer and builds one model per step.  World = the caller's buffers + the objects built so far.
+   `conv` is the constructor (validation + conversion of what the argument holds at that moment; None = rejected).
+   Operations: the caller (re)fills a buffer, an object is constructed from a buffer, distribution / attribute queries.
+   Theorems: (world_snapshot) every answer is the pure function of the SNAPSHOT conv(content at construction time):
+   the world with live, memoising objects is observationally equal to the memo-free world whose objects are immutable
+   parameter snapshots; (refill_invisible) a refill changes no later answer of the objects already built;
+   (buffers_only_caller) the buffers hold what the caller last wrote: no constructor or query writes to them. *)
+Section World.
+  Variables (V P K A D : Type).
+  Variable keqb : K -> K -> bool.
+  Hypothesis keqb_eq : forall a b, keqb a b = true <-> a = b.
+  Variable f : P -> K -> D.
+  Variable attrs : P -> A.
+  Variable conv : V -> option P.
+
+  Notation objT := (obj P K D).
+  Notation ostep := (step P K A D keqb f attrs).
+  Notation omemo_ok := (memo_ok P K D f).
+
+  Inductive wop := WFill (b : nat) (v : V) | WNew (b : nat) | WPD (i : nat) (p : K) | WAttr (i : nat).
+  Inductive wobs := WDone | WRejected | WNoSuch | WD (d : D) | WA (a : A).
+  Definition obs_of (y : obs A D) : wobs := match y with ObsD _ _ d => WD d | ObsA _ _ a => WA a end.
+
+  Fixpoint set_nth {X} (n : nat) (x : X) (l : list (option X)) : list (option X) :=
+    match n, l with
+    | O, [] => [Some x]
+    | O, _ :: r => Some x :: r
+    | S n', [] => None :: set_nth n' x []
+    | S n', y :: r => y :: set_nth n' x r
+    end.
+  Definition get {X} (n : nat) (l : list (option X)) : option X :=
+    match nth_error l n with Some (Some x) => Some x | _ => None end.
+
+  (* the world with live objects (memo tables) *)
+  Record world := mkW { bufs : list (option V); objs : list (option objT) }.
+  Definition wquery (w : world) (i : nat) (x : op K) : world * wobs :=
+    match get i (objs w) with
+    | None => (w, WNoSuch)
+    | Some o => let '(o', y) := ostep o x in (mkW (bufs w) (set_nth i o' (objs w)), obs_of y)
+    end.
+  Definition wstep (w : world) (x : wop) : world * wobs :=
+    match x with
+    | WFill b v => (mkW (set_nth b v (bufs w)) (objs w), WDone)
+    | WNew b => match get b (bufs w) with
+                | None => (mkW (bufs w) (objs w ++ [None]), WNoSuch)
+                | Some v => match conv v with
+                            | Some ps => (mkW (bufs w) (objs w ++ [Some (mkObj P K D ps [])]), WDone)
+                            | None => (mkW (bufs w) (objs w ++ [None]), WRejected)
+                            end
+                end
+    | WPD i p => wquery w i (OpPD K p)
+    | WAttr i => wquery w i (OpAttr K)
+    end.
+  Fixpoint wrun (w : world) (h : list wop) : list wobs :=
+    match h with
+    | [] => []
+    | x :: r => let '(w', y) := wstep w x in y :: wrun w' r
+    end.
+
+  (* the specification: objects are immutable snapshots of the converted argument *)
+  Record sworld := mkS { sbufs : list (option V); snaps : list (option P) }.
+  Definition squery (s : sworld) (i : nat) (x : op K) : wobs :=
+    match get i (snaps s) with
+    | None => WNoSuch
+    | Some ps => obs_of (spec P K A D f attrs ps x)
+    end.
+  Definition sstep (s : sworld) (x : wop) : sworld * wobs :=
+    match x with
+    | WFill b v => (mkS (set_nth b v (sbufs s)) (snaps s), WDone)
+    | WNew b => match get b (sbufs s) with
+                | None => (mkS (sbufs s) (snaps s ++ [None]), WNoSuch)
+                | Some v => match conv v with
+                            | Some ps => (mkS (sbufs s) (snaps s ++ [Some ps]), WDone)
+                            | None => (mkS (sbufs s) (snaps s ++ [None]), WRejected)
+                            end
+                end
+    | WPD i p => (s, squery s i (OpPD K p))
+    | WAttr i => (s, squery s i (OpAttr K))
+    end.
+  Fixpoint srun (s : sworld) (h : list wop) : list wobs :=
+    match h with
+    | [] => []
+    | x :: r => let '(s', y) := sstep s x in y :: srun s' r
+    end.
+
+  Definition oparams (o : option objT) : option P := option_map (params P K D) o.
+  Definition abstract (w : world) : sworld := mkS (bufs w) (map oparams (objs w)).
+  Definition world_ok (w : world) : Prop := forall o, In (Some o) (objs w) -> omemo_ok o.
+
+  Lemma get_map {X Y} (g : X -> Y) i l : get i (map (option_map g) l) = option_map g (get i l).
+  Proof.
+    unfold get. rewrite nth_error_map. destruct (nth_error l i) as [[x|]|]; reflexivity.
+  Qed.
+  Lemma get_in {X} i (l : list (option X)) x : get i l = Some x -> In (Some x) l.
+  Proof.
+    unfold get. destruct (nth_error l i) as [[y|]|] eqn:E; try discriminate.
+    intros H; injection H as <-. eapply nth_error_In; exact E.
+  Qed.
+  Lemma set_nth_map {X Y} (g : X -> Y) i x l :
+    map (option_map g) (set_nth i x l) = set_nth i (g x) (map (option_map g) l).
+  Proof.
+    revert l; induction i as [|i IH]; intros [|y r]; cbn; try reflexivity.
+    - f_equal. apply (IH []).
+    - f_equal. apply IH.
+  Qed.
+  Lemma set_nth_same {X} i (x : X) l : get i l = Some x -> set_nth i x l = l.
+  Proof.
+    unfold get. revert l; induction i as [|i IH]; intros [|y r]; cbn; try discriminate.
+    - destruct y; [intros H; injection H as <-; reflexivity | discriminate].
+    - intros H. f_equal. apply IH. exact H.
+  Qed.
+  Lemma in_set_nth {X} i (x : X) l y : In (Some y) (set_nth i x l) -> y = x \/ In (Some y) l.
+  Proof.
+    revert l; induction i as [|i IH]; intros [|z r]; cbn.
+    - intros [H|[]]. injection H as <-. now left.
+    - intros [H|H]; [injection H as <-; now left | right; now right].
+    - intros [H|H]; [discriminate|]. destruct (IH [] H) as [E|[]]. now left.
+    - intros [H|H]; [right; now left|]. destruct (IH r H) as [E|E]; [now left | right; now right].
+  Qed.
+
+  Lemma wquery_spec w i x : world_ok w ->
+    snd (wquery w i x) = squery (abstract w) i x /\ abstract (fst (wquery w i x)) = abstract w /\ world_ok (fst (wquery w i x)).
+  Proof.
+    intros Hok. unfold wquery, squery, abstract; cbn [snaps sbufs].
+    change (map oparams (objs w)) with (map (option_map (params P K D)) (objs w)).
+    rewrite get_map. destruct (get i (objs w)) as [o|] eqn:G; cbn [option_map].
+    - pose proof (get_in _ _ _ G) as Hin.
+      destruct (step_spec P K A D keqb keqb_eq f attrs o x (Hok o Hin)) as (Hy & Hp & Hm).
+      destruct (ostep o x) as [o' y]; cbn [fst snd bufs objs] in *.
+      split; [now rewrite Hy|]. split.
+      + f_equal. change (map oparams) with (map (option_map (params P K D))).
+        rewrite set_nth_map, Hp. apply set_nth_same. rewrite get_map, G. reflexivity.
+      + intros o2 H2. destruct (in_set_nth _ _ _ _ H2) as [->|H3]; [exact Hm | now apply Hok].
+    - cbn. repeat split; try reflexivity. exact Hok.
+  Qed.
+
+  Lemma world_ok_app w o : world_ok w -> (forall o', o = Some o' -> omemo_ok o') ->
+    world_ok (mkW (bufs w) (objs w ++ [o])).
+  Proof.
+    intros Hok Ho o2 H2; cbn in H2. apply in_app_or in H2. destruct H2 as [H2|[H2|[]]]; [now apply Hok | now apply Ho].
+  Qed.
+
+  Lemma wstep_spec w x : world_ok w ->
+    snd (wstep w x) = snd (sstep (abstract w) x) /\ abstract (fst (wstep w x)) = fst (sstep (abstract w) x)
+    /\ world_ok (fst (wstep w x)).
+  Proof.
+    intros Hok. destruct x as [b v|b|i p|i]; cbn [wstep sstep].
+    - cbn. repeat split. exact Hok.
+    - cbn [abstract sbufs snaps]. destruct (get b (bufs w)) as [v|]; [destruct (conv v) as [ps|]|]; cbn [fst snd];
+        (split; [reflexivity|]; split;
+         [unfold abstract; cbn [bufs objs]; rewrite map_app; reflexivity
+         | apply world_ok_app; [exact Hok | intros o' E; try discriminate; injection E as <-; intros k d []]]).
+    - destruct (wquery_spec w i (OpPD K p) Hok) as (H1 & H2 & H3). cbn [fst snd]. repeat split; assumption.
+    - destruct (wquery_spec w i (OpAttr K) Hok) as (H1 & H2 & H3). cbn [fst snd]. repeat split; assumption.
+  Qed.
+
+  (* live, memoising objects built from caller-owned buffers answer exactly like immutable snapshots *)
+  Theorem world_snapshot h : forall w, world_ok w -> wrun w h = srun (abstract w) h.
+  Proof.
+    induction h as [|x r IH]; intros w Hok; [reflexivity|].
+    cbn [wrun srun]. destruct (wstep_spec w x Hok) as (Hy & Ha & Hok').
+    destruct (wstep w x) as [w' y]; destruct (sstep (abstract w) x) as [s' y2]; cbn [fst snd] in *.
+    subst y2 s'. f_equal. now apply IH.
+  Qed.
+  Corollary empty_world_snapshot h : wrun (mkW [] []) h = srun (mkS [] []) h.
+  Proof. apply (world_snapshot h (mkW [] [])). intros o []. Qed.
+
+  (* a refill is invisible to every object built before it *)
+  Definition is_query (x : wop) : bool := match x with WPD _ _ | WAttr _ => true | _ => false end.
+  Lemma srun_queries h : forallb is_query h = true ->
+    forall s s', snaps s = snaps s' -> srun s h = srun s' h.
+  Proof.
+    induction h as [|x r IH]; intros Hq s s' E; [reflexivity|].
+    cbn in Hq. apply andb_true_iff in Hq as [Hx Hr].
+    destruct x as [b v|b|i p|i]; try discriminate; cbn [srun sstep]; unfold squery; rewrite E; f_equal; now apply IH.
+  Qed.
+  Theorem refill_invisible w b v h : world_ok w -> forallb is_query h = true ->
+    wrun (fst (wstep w (WFill b v))) h = wrun w h.
+  Proof.
+    intros Hok Hq. destruct (wstep_spec w (WFill b v) Hok) as (_ & _ & Hok').
+    rewrite (world_snapshot h _ Hok'), (world_snapshot h w Hok).
+    apply srun_queries; [exact Hq | reflexivity].
+  Qed.
+
+  (* the buffers hold what the caller wrote last: constructors and queries never write to them *)
+  Definition caller_writes (bs : list (option V)) (h : list wop) : list (option V) :=
+    fold_left (fun bs x => match x with WFill b v => set_nth b v bs | _ => bs end) h bs.
+  Fixpoint wfinal (w : world) (h : list wop) : world :=
+    match h with [] => w | x :: r => wfinal (fst (wstep w x)) r end.
+  Theorem buffers_only_caller h : forall w, bufs (wfinal w h) = caller_writes (bufs w) h.
+  Proof.
+    induction h as [|x r IH]; intros w; [reflexivity|].
+    cbn [wfinal caller_writes fold_left]. rewrite IH. f_equal.
+    destruct x as [b v|b|i p|i]; cbn [wstep]; try reflexivity.
+    - destruct (get b (bufs w)) as [v|]; [destruct (conv v)|]; reflexivity.
+    - unfold wquery. destruct (get i (objs w)) as [o|]; [destruct (ostep o (OpPD K p))|]; reflexivity.
+    - unfold wquery. destruct (get i (objs w)) as [o|]; [destruct (ostep o (OpAttr K))|]; reflexivity.
+  Qed.
+End World.
